@@ -55,8 +55,8 @@ macro "ok_frame" hs:ident : tactic => `(tactic| (unfold St.Ok at *; first
   | (simp only [apply_ite St.queue, St.emit, ite_self]; exact $hs)
   | (repeat' split; all_goals (first | exact $hs | (simp only [apply_ite St.queue, St.emit, ite_self]; exact $hs)))))
 
-theorem processData_safe (s : St) (v : Array UInt8) {Q b n} (hs : s.Ok) (hv : 12 ≤ v.size)
-    (h : ∀ s' n', s'.Ok → s'.queue = s.queue → Q s' b n') : safe T (processData s v) Q b n := by
+theorem processData_safe (s : St) (flags : Nat) (v : Array UInt8) {Q b n} (hs : s.Ok) (hv : 12 ≤ v.size)
+    (h : ∀ s' n', s'.Ok → s'.queue = s.queue → Q s' b n') : safe T (processData s flags v) Q b n := by
   unfold processData
   apply safe_bind; apply safe_onBuf
   apply safe_bind; apply safe_advance (by simp; omega); intro b1 hb1
@@ -65,9 +65,22 @@ theorem processData_safe (s : St) (v : Array UInt8) {Q b n} (hs : s.Ok) (hv : 12
   apply safe_bind; apply safe_getU16 (by omega); intro ssn b3 _ hb3
   apply safe_bind; apply safe_getU32 (by omega); intro ppid b4 _ hb4
   apply safe_ite <;> intro hp
-  · apply handleDcepSt_safe _ _ hs
-    intro s' b' n' hq
-    apply safe_pure; exact h _ _ (by unfold St.Ok; rw [hq]; exact hs) hq
+  · dsimp only
+    apply safe_ite <;> intro hbe
+    · apply handleDcepSt_safe _ _ hs
+      intro s' b' n' hq
+      apply safe_pure; exact h _ _ (by unfold St.Ok; rw [hq]; exact hs) hq
+    · apply safe_bind; apply safe_restSlice; intro data _
+      apply safe_ite <;> intro hmid
+      · apply safe_pure; apply safe_pure; exact h _ _ hs rfl
+      apply safe_bind; apply safe_alloc
+      apply safe_ite <;> intro he
+      · apply safe_pure; apply safe_pure; exact h _ _ hs rfl
+      · apply safe_bind; apply safe_onBuf
+        apply handleDcepSt_safe _ _ (show St.Ok { s with dcepBuf := s.dcepBuf.filter (fun e => decide (e.1 ≠ sid)) } from hs)
+        intro s' b' n' hq
+        apply safe_pure
+        apply safe_pure; exact h _ _ (by unfold St.Ok; rw [hq]; exact hs) hq
   · cur_auto
     exact h _ _ hs rfl
 
@@ -123,7 +136,7 @@ theorem processBatch_safe (l : List (Nat × Nat × Array UInt8)) (s : St) {Q b n
   | cons e rest ih =>
     unfold processBatch
     apply safe_bind
-    apply processData_safe _ _ hs (hl e (by simp))
+    apply processData_safe _ _ _ hs (hl e (by simp))
     intro s' n' hs' _
     apply safe_ite <;> intro hf
     · apply safe_pure; exact h _ _ hs'
@@ -143,7 +156,7 @@ theorem handleDataSt_safe (s : St) (flags : Nat) (v : Array UInt8) {Q b n} (hs :
   · apply safe_pure; exact h _ _ hs
   apply safe_ite <;> intro hfast
   · apply safe_bind
-    apply processData_safe _ _ hs (by omega)
+    apply processData_safe _ _ _ hs (by omega)
     intro s' n' hs' _
     apply safe_pure
     apply h
@@ -232,7 +245,7 @@ theorem fwdDrain_safe (s : St) (fuel : Nat) {Q b n} (hf : s.queue.length < fuel)
       have hp : e.1 = u32add s'.cum 1 := by simpa using List.find?_some he
       have hlt := filter_tsn_lt s'.queue _ e hmem hp
       apply safe_bind
-      apply processData_safe _ _ (show St.Ok { s' with queue := s'.queue.filter (fun x => decide (x.1 ≠ u32add s'.cum 1)) } from qok_filter _ hs') (hs' e hmem)
+      apply processData_safe _ _ _ (show St.Ok { s' with queue := s'.queue.filter (fun x => decide (x.1 ≠ u32add s'.cum 1)) } from qok_filter _ hs') (hs' e hmem)
       intro s'' n'' hs'' hq''
       apply safe_ite <;> intro hfail
       · apply safe_pure; exact h _ _ _ hs''
